@@ -129,6 +129,19 @@ func c01(c *Check) {
 	c.WhoMayCall("C01/who-writes-receipts", c.F(pkKeeper+"Keeper.SetPacketReceipt"), "packet/keeper.(Keeper).RecvPacket", "core/packet.InitGenesis")
 	auditOpaque(c, "C01/who-writes-receipts")
 
+	c.Rule("C01/receipt-on-every-accept", "every success path of the packet keeper's RecvPacket writes the receipt exactly once (whatever the client type); the receipts exported in genesis are read from, and re-imported into, the receipts family with (src,dst,seq) in order", 4)
+	{
+		paths := c.PathCounts(recv, func(cs *CallSite) bool { return strings.HasSuffix(cs.Name, "keeper.(Keeper).SetPacketReceipt") })
+		ok := len(paths) > 0
+		for _, p := range paths {
+			if p.Count != 1 {
+				ok = false
+			}
+		}
+		c.Req(ok, "C01/receipt-on-every-accept", funcName(recv)+"/exactly-one SetPacketReceipt per success path", recv.Pos(), fmt.Sprint(len(paths), " success path(s)"), "a success path of RecvPacket accepts the packet without writing its receipt (a later receive of the same triple would be accepted again)")
+		packetGenesisBinding(c, "C01/receipt-on-every-accept", "Receipts", "Acknowledgements")
+	}
+
 	c.Rule("C01/effects-after-accept", "msg server RecvPacket: the onRecvPacket callback and every WriteAcknowledgement are dominated by the err==nil edge of PacketKeeper.RecvPacket(ctx,msg); onRecvPacket is invoked from nowhere else", 4)
 	ms := c.F(xibcK + "Keeper.RecvPacket")
 	okEdge := errNil("{KRECV}")
